@@ -224,6 +224,27 @@ def campaign(c):
             if b is not None:
                 f = kv(parse(c, 'rr:3', b))
                 expect(c, 'dns::answer', f.get('data') == sh_hex(data) and f.get('type') == str(sel) and f.get('rest') == '-', 'RR of type %d with data %s: framing wrong' % (sel, [p.hex() for p in parts]), rep)
+    # DNS resource-record data inside the message dns::host builds: every answer declares RDLENGTH 4 and is followed by exactly its
+    # address, for 0..n answers (an independent message parser walks the response record by record)
+    for i in range(40 if c.quick else 600):
+        r = c.rng.fork('c15-host-%d' % i)
+        ips = [r.below(2 ** 32) for _ in range([0, 1, 2, 3, 4, 7, 16, 33][i % 8])]
+        name = r.choice([b'a', b'example.com', b'www.a-long-label-of-some-kind.example.org', b'x.y.z.w'])
+        ttl = r.choice([229, 0, 1, 2 ** 32 - 1])
+        res, req = call_both(c, [['dns::host', '-=ip4:%d' % r.below(2 ** 32), '-=' + s(name)] + (['ttl=u32:%d' % ttl] if ttl != 229 else []) + (['raw=bool:true']) + ['-=ip4:%d' % x for x in ips]])
+        rep = dict(req=req)
+        if res[0].startswith('ok pktgen:['):
+            frames = [core.unhex(x) for x in res[0][len('ok pktgen:['):-1].split(',')]
+            u = kv(parse(c, 'udpframe:1', frames[-1])) if len(frames) == 2 else {}
+            m = parse(c, 'dnsmsg', core.unhex(u['payload'])) if u.get('payload') else 'none'
+            qn = '.'.join(sh_hex(l) for l in name.split(b'.'))
+            want = ';'.join('[%s 1 1 %d %s]' % (qn, ttl, sh_hex(x.to_bytes(4, 'big'))) for x in ips)
+            expect(c, 'dns::host', m.startswith('ok') and m.split(' an=')[1] == want and kv(m)['counts'].split(',')[1] == str(len(ips)),
+                   'the response of dns::host with %d addresses does not parse record by record into the supplied answers: %s' % (len(ips), m[:120]), rep)
+            c.traces_validated += 1
+        else:
+            expect(c, 'dns::host', False, 'dns::host failed: %s' % res[0][:80], rep)
+        c.case(('host', i), dict(kind='dns::host', answers=len(ips)) if i % 8 == 3 else None)
     c.count('selector-grid', 256 * len(conts) * 2 + (len(named16) + 64) * len(conts) * 2)
     c.assumptions += ['hello builders take session id / cipher list / compression as already framed byte strings; the campaign frames them with the library\'s own len_u8 / tls::ciphers']
 
